@@ -67,6 +67,26 @@ CHECKS = {
              "and the caller's buffer with the specification state.",
         note="integer elements; shape-preserving write grammar of DESIGN.md 6/C06; shapes <=3 rows x length <=3; index expressions invalid on a list of rows are C05's subject",
         ref="6/C06"),
+    "C07": dict(
+        technique="TLA+ spec Committor.tla (exact rational transcription of committors/mfpts step by step, first-step invariants) model-checked with TLC + spec->code replay of every emitted (chain, sources, sinks, lag) in dense/csr/lil/csc containers; TLC trace validation (Trace_Committor.tla) of recorded runs on larger random chains",
+        text="TLC runs the implementation-shaped steps of tpt.committors and tpt.mfpts (right-hand side, absorbing mask, solve, sum over sink "
+             "columns, pin sinks, lag scaling; all-pairs: populations, fundamental matrix, inverse, formula) in exact rational arithmetic on every "
+             "irreducible integer chain in scope and checks PinnedSources, PinnedSinks, InUnit, FirstStep, the mfpt first-step equations, "
+             "column-by-column agreement of the all-pairs table and linear scaling with the lag; the exact expected values are replayed into the "
+             "real functions in four containers (1e-9 relative, inputs bitwise unchanged). Outputs of the real code on random irreducible chains "
+             "with 5..8 states (reversible or not) and on the chains of the repository's tests are logged as scaled integers and validated by TLC "
+             "against the first-step relations.",
+        note="exact scope n<=4 states, row sums D<=4 (quick) / n<=5, D<=6 (thorough); float64; trace validation accepts 1e-6 (committors) / 1e-4 (mfpts)",
+        ref="6/C07"),
+    "C08": dict(
+        technique="TLA+ spec Flux.tla (extends Committor.tla; exact rational transcription of reactive_fluxes / net_fluxes / reactive_populations) model-checked with TLC + spec->code replay in dense/csr/lil/csc containers, populations given and computed",
+        text="TLC enumerates every connected symmetric integer matrix in scope (reversible chain with exact populations) x every disjoint non-empty "
+             "source/sink pair, runs the committor pipeline and then the statements of the flux functions (scale rows by pi q-, columns by q+, zero "
+             "the diagonal, positive part of f - f^T, normalise pi q+ q-) and checks FluxDef, NetOneDirection, Conservation, NoInflowToSources, "
+             "NoOutflowFromSinks, SourceOutEqSinkIn, PopsProbability; every emitted case is replayed into the real functions and compared at 1e-9 "
+             "relative with the caller's arrays required unchanged.",
+        note="N=3 entries<=2, N=4 entries<=1 (quick); N<=5 (thorough); reactive_populations not judged when no state lies strictly between the sets",
+        ref="6/C08"),
     "C09": dict(
         technique="TLA+ specs PAM.tla/Hybrid.tla model-checked with TLC over all accept/reject histories; TLC trace validation of every proposal (from DEBUG records) and sweep of the real k-medoids / k-hybrid",
         text="TLC explores every sequence of proposals (members, or explicit proposal lists incl. frames of other clusters) with "
@@ -107,6 +127,16 @@ CHECKS = {
              "agreement of the two implementations. A verdict per trace names the failing clause.",
         note="relation tolerances 1e-4 (32-bit integer budget); dominance is checked against the transpose estimate and <=7 perturbed competitors plus the exact stationarity certificate, not against all reversible matrices; log-likelihood numbers come from the projection",
         ref="6/C12"),
+    "C13": dict(
+        technique="TLA+ spec Dist.tla (configuration machine Validate/Dispatch/kernel loops/Return vs the L1/L2/Hamming definitions) model-checked with TLC + spec->code replay of emitted matrices x configurations x layouts at 1..16 OpenMP threads; TLA+ spec Prange.tla model-checked over all thread interleavings of the memory-access table extracted from the current libdist.pyx",
+        text="TLC checks Exact, OutHoldsResult, Shape1D, NoStrayWrite, RejectsBadInput, AcceptsGoodInput, ViewIsLogical on the machine for every "
+             "configuration (kernel x entry point x element type x layout x out kind x ranks x width x magnitude up to the type's extreme) and emits "
+             "matrices with expected distances, configurations with expected outcome and buffer layouts (offset, strides); the cross product is "
+             "replayed into libdist.euclidean/manhattan/hamming and _get_distance_method in worker processes per thread count, result bits compared "
+             "across thread counts, guard cells around out= checked. The supported element types and the prange access tables are extracted from "
+             "the current source; TLC decides RaceFree, ScheduleIndependent, InBounds for them (extractor+model self-tested on known-bad kernels).",
+        note="matrices <=3x2 entries -2..2 scaled to the dtype's extremes, generated 17..64(257) x 3..8; OpenMP schedules themselves are the runtime's: all interleavings are explored on the extracted table, thread counts sampled dynamically",
+        ref="6/C13"),
     "C14": dict(
         technique="TLA+ specs KCentersMPI.tla / StripedOps.tla model-checked with TLC over all arrival orders at collectives; replay on a simulated communicator under several schedules; TLC validation of reassembled states and of the communicator log",
         text="TLC explores every arrival order of R ranks at every collective of the distributed k-centers program and checks that the "
@@ -119,6 +149,16 @@ CHECKS = {
              "Trace_Collectives.tla; striped loaders run against real HDF5/npy files with strides.",
         note="ranks are simulated threads with rendezvous collectives (no MPI library in the sandbox); R<=3 (quick) / 4 (thorough), every rank owns >=1 trajectory; nothing is claimed about mpi4py marshalling",
         ref="6/C14"),
+    "C15": dict(
+        technique="TLA+ specs H5Rows.tla (ra.save/ra.load node naming, listing order, stride/keys branches) and ParallelLoad.tla (load_as_concatenated: sounding, hint, offsets, workers writing windows in any order) model-checked with TLC + spec->code replay on real PyTables / trajectory files with TLC-chosen task orders",
+        text="TLC checks OrderPreserved for every row count 1..1200, SaveInjective, ListedIsRowOrder, LengthsAreCeil, FillInBounds, RoundTrip, "
+             "StrideIsSlice, KeysSubset on the save/load step machine and WindowsDisjoint, WindowsCover, FinalIsConcatenation, WrongHintRejected, "
+             "ShapeMismatchRejected over all task orders and worker counts of the loader model, and emits cases (input, calls, expected result by the "
+             "definition part). Each case is realised as real files (5 dtypes, element shapes () and (2,), compression 0/1/9; .h5 and .xtc "
+             "trajectories), the real functions are called with enspara.util.load.mp replaced by a pool shim that runs tasks in the emitted order "
+             "(thorough: also the real multiprocessing.Pool with 1/2/4/8 processes), and results are compared bit by bit.",
+        note="ragged <=3 rows exhaustive + cyclic patterns at 9..11 and 99..101 rows; loader <=4 files of 1..4 frames, 4 atoms; truly concurrent writes only in the thorough tier",
+        ref="6/C15"),
     "C16": dict(
         technique="TLA+ spec MSMObj.tla (object lifecycle with stored vs given configuration) model-checked with TLC + spec->code replay incl. save/load; spectral part by TLC trace validation (Spectrum.tla)",
         text="TLC checks ConfigStored / FitIsPipeline / RoundTrip / MappingMonotone / TrimmedConnected on the lifecycle New->Fit->Save->Load "
@@ -138,6 +178,17 @@ CHECKS = {
              "validated step by step: each reported path must be a legal Peel of the specification's own residual.",
         note="n=4..5 nodes, weights 0..3, multi-source/sink families, conserved DAG flows; dense inputs only (the functions are documented for ndarray); two known findings for remove_path='bottleneck'",
         ref="6/C17"),
+    "C18": dict(
+        technique="TLA+ spec JointCounts.tla (prange-shaped kernel model, all interleavings, validation terminals) model-checked with TLC + spec->code replay over 8 integer dtypes / 4 layouts / 1..16 threads; TLA+ spec InfoLaws.tla validating recorded metamorphic sessions of the real mutual-information API (TLC trace validation)",
+        text="TLC checks JCExact, Partial, Total, OwnBlock, NoOutOfBounds, Rejected on the kernel-shaped model (one prange iteration per first-side "
+             "feature, arbitrary interleaving) and emits every input in scope with the expected table or error terminal (id<0, id>=n at every "
+             "placement, unequal lengths); worker processes replay them into mutual_info.joint_counts, libinfo.matrix_bincount2d and bincount2d. "
+             "Metamorphic sessions on TLC-enumerated data sets (relabel, reorder frames, split into trajectories, weights, normalisation, "
+             "kl_divergence) are executed by the real code, projected to scaled integers and every law clause (non-negative, symmetric, "
+             "diagonal = entropy, <= min marginal entropy, invariances, pooled counts, uniform weights, channel-capacity normalisation with "
+             "n_x != n_y, KL >= 0 and = 0 iff equal) is evaluated by TLC; for dyadic data TLC returns exact values in bits.",
+        note="<=4 frames, <=2 features per side, <=3 states; law clauses at 2e-6 absolute (normalisation 2.5e-4); T=0 outside the property",
+        ref="6/C18"),
     "C19": dict(
         technique="TLA+ heap/purity model (Purity.tla) over a routine table extracted from the current source, model-checked with TLC; TLC-enumerated call histories replayed under a poisoning numpy allocator",
         text="harness/extract/masked_sites.py lists every masked element-wise call and uninitialised allocation of the current source; TLC "
